@@ -57,7 +57,7 @@ func (s *Sym) Integral(a *RF) bool {
 	if c, ok := a.D.isConst(); !ok || c.Cmp(big.NewRat(1, 1)) != 0 {
 		return false
 	}
-	for _, t := range a.N.terms {
+	for _, t := range a.N.sortedTerms() {
 		if !t.coef.IsInt() {
 			return false
 		}
